@@ -2128,7 +2128,10 @@ def simplify_sources(case):
             src = mk_source(P)
             if flag:
                 src.simplify_distribution = True
-            t = advance(src, case.get("pre", 0))
+            advance(src, case.get("pre", 0))
+            for _ in range(case.get("pre1", 0)):        # cheap advancement of the tag counter: one photon per call
+                src.generate_distribution(BasicState([1]))
+            t = src.get_tag("discernability_tag")
             outs.append(src.generate_distribution(BasicState(ns)) if thr is None else
                         src.generate_distribution(BasicState(ns), thr))
     return outs[0], outs[1], t
@@ -2355,8 +2358,8 @@ def simplify_cases(chk, lat, rng):
         if out[-1].get("via") == "proc":
             out[-1].pop("thr"), out[-1].pop("pre")
     # tag counter far enough for two-digit tags (their strings share a prefix with one-digit ones)
-    out.append({"kind": "simplify", "P": FIXED["pd-dist"], "ns": [2, 1], "pre": 5})
-    out.append({"kind": "simplify", "P": FIXED["pd-indist"], "ns": [1, 1, 1], "pre": 10})
+    out.append({"kind": "simplify", "P": FIXED["pd-dist"], "ns": [2, 1], "pre1": 5})
+    out.append({"kind": "simplify", "P": FIXED["pd-indist"], "ns": [1, 1, 1], "pre1": 10})
     for st in ("|{_:3}{_:1},{_:2}>", "|{_:2},{_:1}{_:2}>", "|{_:10}{_:9},{_:9}>", "|1,{_:4}>", "|{_:1}{_:0}2,1>", "|0,0>",
                "|2{_:5},{_:0}{_:5}>", "|{_:12}{_:3}{_:12}1,0,{_:3}2>"):
         out.append({"kind": "anon", "state": st})
@@ -2780,6 +2783,13 @@ def run(chk: core.Check):
             (init, 2, [{"op": "input", "ns": A}, {"op": "set", "id": 0, "P": BADP, "via": "ref", "fields": "all"},
                        {"op": "assign", "id": 0, "route": "experiment"}] + rd +
                       [{"op": "assign", "id": None, "route": "proc"}] + rd + [{"op": "input", "ns": B}] + rd),
+            # rejected while NO mixture is cached (an accepted assignment dropped it): the read in that state
+            # regenerates with the source of the values accepted last
+            (init, 2, [{"op": "input", "ns": A}, {"op": "assign", "id": 0, "route": "proc"},
+                       {"op": "copy", "id": 0, "to": 2},
+                       {"op": "set", "id": 2, "P": {**BADP, "beta": "0", "g2": "1/4", "q": "1"}, "via": "ref", "fields": "all"},
+                       {"op": "assign", "id": 2, "route": "proc"}] + rd +
+                      [{"op": "assign", "id": 0, "route": "proc"}] + rd),
             # generate_noisy_heralds: the herald photons go through the current source
             ({**init, "heralds": {"1": 1}}, 2,
              [{"op": "heralds"}, {"op": "input", "ns": A}, {"op": "heralds"},
